@@ -865,7 +865,13 @@ def check_ensembles(case, ctx):
                 ctx.close(np.asarray(first.ps, dtype=float), p1, jt + ptol(p1), "ens2:marginal_is_first_measurement")
                 # zeroing a sub-threshold joint outcome re-normalises inside its own branch: the statistics of the first
                 # measurement, as the ensemble of the first measurement reports them, are untouched by the second one
-                ctx.close(np.asarray(first.ps, dtype=float), np.asarray(pd1.ps, dtype=float), 1e-13,
+                # ... unless EVERY joint outcome of a branch is below the threshold: then the documented zeroing removes
+                # the whole branch and its mass (at most m2 * eps_zero per branch) is re-distributed.
+                pd1_ps = np.asarray(pd1.ps, dtype=float)
+                gone = [i for i in range(m1) if pd1_ps[i] > 0 and np.max(joint[i]) <= 2 * EPS_DEFAULT]
+                if gone:
+                    ctx.label("whole-branch-below-threshold")
+                ctx.close(np.asarray(first.ps, dtype=float), pd1_ps, 1e-13 + 2 * float(sum(pd1_ps[i] for i in gone)),
                           "ens2:first_marginal_equals_first_ensemble_exactly")
         second = pd2.marginalize(list(range(len(sh1), len(sh12))))
         if _valid_dist_obj(second, ctx, "ens2_marginal"):
